@@ -3168,8 +3168,12 @@ RESUME_VALIDATE_CERTS:
                 ssl->err = SSL_ALERT_UNKNOWN_CA;
             }
             break;
-
+        case PS_CERT_AUTH_PASS:
+            break;
         default:
+            /* Never evaluated (validation stopped early) or an
+               unclassified failure: not an authenticated certificate */
+            ssl->err = SSL_ALERT_BAD_CERTIFICATE;
             break;
         }
         cert = cert->next;
@@ -3211,19 +3215,20 @@ RESUME_VALIDATE_CERTS:
         rc = -1;  /* Force the check on existence of user callback */
     }
 
-    if (rc < 0)
+    if (rc < 0 || ssl->err != SSL_ALERT_NONE)
     {
         psTraceInfo("WARNING: cert did not pass internal validation test\n");
         /*      Cert auth failed.  If there is no user callback issue fatal alert
             because there will be no intervention to give it a second look. */
+        /*  ssl->err should have been set correctly above but catch
+            any missed cases with the generic BAD_CERTIFICATE alert, also
+            when a user callback is going to look at it */
+        if (ssl->err == SSL_ALERT_NONE)
+        {
+            ssl->err = SSL_ALERT_BAD_CERTIFICATE;
+        }
         if (ssl->sec.validateCert == NULL)
         {
-            /*  ssl->err should have been set correctly above but catch
-                any missed cases with the generic BAD_CERTIFICATE alert */
-            if (ssl->err == SSL_ALERT_NONE)
-            {
-                ssl->err = SSL_ALERT_BAD_CERTIFICATE;
-            }
             return MATRIXSSL_ERROR;
         }
     }
